@@ -23,7 +23,7 @@ FORGERIES = [
     "report_known_oid", "report_unknown_oid", "report_response_bindings", "report_authflag_baddigest",
     "report_empty_bindings", "report_error_status_nosuchname", "report_error_status_toobig", "report_boots_ahead",
     "report_time_ahead", "response_as_report_tag", "flags2_plain_any_level", "flags0_plain_tag_trap", "flags0_plain_tag_inform",
-    "flags0_plain_tag_getrequest", "flags0_plain_tag_setrequest",
+    "flags0_plain_tag_getrequest", "flags0_plain_tag_setrequest", "flags0_plain_other_msgid", "flags0_plain_msgid_zero",
 ]
 OPS = ["get", "multiget", "getnext", "set", "bulkget", "walk"]
 HASHES = ["md5", "sha1"]
@@ -244,6 +244,11 @@ def _forge(name: str, plan: dict, raw: bytes, agent: Any, digest_octet: int = 1)
     level = sc["level"]
     if name == "flags0_plain":
         return build(0, b"", scoped)
+    if name in ("flags0_plain_other_msgid", "flags0_plain_msgid_zero"):
+        # the same forgery under a header msgID the client has no outstanding request for (PDU request-id kept)
+        m = build(0, b"", scoped)
+        other_id = 0 if name.endswith("zero") else (msg["msg_id"] + 1) % (2**31)
+        return S.enc_v3_msg(other_id, 65507, 0, 3, S.enc_usm_params(dict(sec, auth=b"", priv=b"")), scoped)
     if name == "flags2_plain_any_level":
         # msgFlags 0x02 (privacy without authentication) is not a security level at all; with a plaintext scoped PDU
         return build(2, b"", scoped)
